@@ -169,9 +169,21 @@ def _sig_tag_block_heuristics(case: dict, f: Failure) -> bool:
     return any(c01.tag_and_block_like_paragraph(re.sub(r"(\d)\\([.)])", r"\1\2", x)) for x in xs)
 
 
+def _sig_escaped_backticks(case: dict, f: Failure) -> bool:
+    """Same root cause as C01 escaped-backticks-hide-code-span: a first pass escapes a fence-like word at a line start, and
+    Marko then no longer finds the code spans that follow it in the paragraph."""
+    import re
+
+    if case["kind"] != "twopass":
+        return False
+    first = opts.fmt(case["text"], _o(*case["o1"]))
+    return re.search(r"(?:\\`){3,}", first) is not None and "`" in re.sub(r"\\`", "", first)
+
+
 DECOMPOSE_KEY = ("text", "raw")  # several recorded findings in one document: see core.sig_hit
 
 SIGS = {
+    "escaped_backticks_hide_code_span": _sig_escaped_backticks,
     "quoted_word_after_definition": _sig_quoted_word_after_definition,
     "tag_block_heuristics": _sig_tag_block_heuristics,
     "sticky_wrap_escapes": _sig_sticky_escapes,
